@@ -40,7 +40,7 @@ pub struct Monitor {
 }
 
 pub fn all() -> Vec<Monitor> {
-    vec![tcp_pair::monitor_c01(), tcp_pair::monitor_c02(), tcp_peer::monitor_c04(), c05(), tcp_peer::monitor_c17(), c06::monitor(), c07::monitor(), c08(), c11::monitor(), c13(), c14::monitor(), c15::monitor(), c16::monitor(), c20::monitor(), c03::monitor(), c09::monitor(), c10::monitor(), c12::monitor(), c18::monitor(), c19::monitor()]
+    vec![tcp_pair::monitor_c01(), c02(), tcp_peer::monitor_c04(), c05(), tcp_peer::monitor_c17(), c06::monitor(), c07::monitor(), c08(), c11::monitor(), c13(), c14::monitor(), c15::monitor(), c16::monitor(), c20::monitor(), c03::monitor(), c09::monitor(), c10::monitor(), c12::monitor(), c18::monitor(), c19::monitor()]
 }
 
 /// C13 = TCP pair driver (probes built into the simulator) + every other driver with the Host probe
@@ -63,6 +63,18 @@ fn c08() -> Monitor {
     asm.extend(bc.assumptions.iter().cloned());
     m.assumptions = Box::leak(asm.into_boxed_slice());
     m.rule = Box::leak(format!("(a) {} (b,c) {}", m.rule, bc.rule).into_boxed_str());
+    m
+}
+
+/// C02 = two-endpoint part + scripted-peer part (a peer that shrinks, closes and reopens its window
+/// and acknowledges what it likes: sequence space never acknowledged obliges the socket to a deadline)
+fn c02() -> Monitor {
+    let mut m = tcp_pair::monitor_c02();
+    m.parts.push(Part { name: "scripted-peer", cases: |c| c.n(10_000, 300_000), f: tcp_peer::c02_peer_case });
+    let mut floors: Vec<(&'static str, u64)> = m.floors.to_vec();
+    floors.push(("owed_retransmission_checks", 50_000));
+    m.floors = Box::leak(floors.into_boxed_slice());
+    m.rule = Box::leak(format!("{} Scripted-peer part: one socket against a consistent but unhelpful peer (windows that shrink to zero and reopen, arbitrary acceptable ACK numbers, lost segments); (P) after every egress pass: sequence space the socket put on the wire (SYN, data, FIN) that no ACK number the peer ever sent covers implies Interface::poll_at is Some.", m.rule).into_boxed_str());
     m
 }
 
